@@ -67,7 +67,7 @@ static const struct tokdef MENU[] = {
 #endif
 #define ABSENT 255
 uint8_t cx_ch[6], cx_v[6][6], cx_drop = DROP, cx_cs[3], cx_nochk, cx_perm = PERM, cx_accept, cx_exc, cx_gcount;
-uint8_t cx_msg[MAXMSG]; uint32_t cx_len, cx_sum; uint8_t cx_conform, cx_order_ok, cx_wrap, cx_autodup, cx_gcount_ok; uint32_t cx_ulen[3], cx_uwant;
+uint8_t cx_msg[MAXMSG]; uint32_t cx_len, cx_sum; uint8_t cx_conform, cx_order_ok, cx_wrap, cx_autodup, cx_gcount_ok, cx_permlead; uint32_t cx_ulen[3], cx_uwant;
 static int nsym;
 static void tok_const(const char *tag, int tl, uint32_t num, const char *val, int vl, int on)
 {
@@ -126,6 +126,7 @@ static int run(void)
   for (int i = 0; i < VF_N_HDR; i++) if (vf_hdr_traits[i].fnum == 8 || vf_hdr_traits[i].fnum == 9 || vf_hdr_traits[i].fnum == 35) seen_h[i] = 1;   /* the preamble */
   uint8_t E_comp[NTOK]; int E_tok[NTOK]; int U_tok[NTOK]; int nunk = 0;
   int ing = 0, nelem = 0, elem_has1 = 0, elem_has2 = 0;      /* inside the repeating group: element bookkeeping */
+  int permlead = 0, lead_b = 0;
   for (int k = first; k < last; k++) if (TK_on[k]) {
     uint32_t num = TK_num[k];
     if (num > 65535) wrap = 1;
@@ -145,6 +146,12 @@ static int run(void)
     int r = h ? 0 : b ? 1 : t ? 2 : -1;
 #if PERM == 1
     if (r < 0) { U_tok[nunk++] = k; continue; }      /* permissive mode: a tag of no component of this message is an unknown token; the rest must conform */
+    /* class of the known finding KF_PERM_LEAD: an unknown token followed by a known field of the component that is being decoded when it is met
+       (then that component's decode returns the end of the message and the later components see nothing): before a header field - the body's
+       mandatory fields go missing; before a body field - the trailer's fields are lost */
+    if (nunk > 0 && r == 0) permlead = 1;
+    if (nunk > 0 && r == 1) lead_b = 1;
+    if (lead_b && r == 2) permlead = 1;
 #endif
     /* order_ok: every tag (by its true number) belongs to the component being decoded or a later one - the class the tail-dropping known finding
        excludes; tags above 65535 belong to no component (trees that reduce them mod 65536 additionally fall under KF_TAG_WRAP) */
@@ -164,6 +171,10 @@ static int run(void)
   for (int i = 0; i < VF_N_BODY; i++) if ((vf_body_traits[i].traits & 1) && !seen_b[i]) conform = 0;
   int cs_ok = (c0 - '0') * 100 + (c1 - '0') * 10 + (c2 - '0') == (int)W_sum;
   cx_conform = (uint8_t)conform; cx_order_ok = (uint8_t)order_ok; cx_wrap = (uint8_t)wrap; cx_autodup = (uint8_t)autodup; cx_gcount_ok = (uint8_t)gcount_ok;
+  cx_permlead = (uint8_t)permlead;
+#ifdef KF_PERM_LEAD
+  VF_ASSUME(!permlead);          /* known finding (permissive mode): an unknown field ahead of a known field of the same component */
+#endif
 #ifdef KF_TAG_WRAP
   VF_ASSUME(!wrap);              /* known finding: tags above 65535 are reduced mod 65536 */
 #endif
